@@ -233,10 +233,13 @@ def run_c16(req):
         if st.frames:
             obs.append({"kind": "outermost_raised_but_frames_exist", "exc": repr(ex)})
         elif st.error is not None:
-            errs = list(getattr(st.error, "exceptions", None) or [st.error])
-            if not any(type(ex) is type(e) and str(ex) == str(e) for e in errs) and not (
-                    type(ex) is type(st.error) and str(ex) == str(st.error)):
+            # "re-raising the recorded error": the same kind of object extract() recorded - the single exception, or
+            # the group of all of them when several items failed
+            def shape(e):
+                return (type(e).__name__, str(e), [shape(x) for x in getattr(e, "exceptions", ())])
+            if shape(ex) != shape(st.error):
                 obs.append({"kind": "outermost_raised_other_error", "exc": repr(ex), "recorded": repr(st.error)})
+            stats["outermost_reraised_group"] = 1 if getattr(st.error, "exceptions", None) else 0
         elif not isinstance(ex, Exception):
             obs.append({"kind": "outermost_raised_baseexception", "exc": repr(ex)})
     else:
